@@ -149,8 +149,41 @@ def polarity(ctx, res):
         key = f"ListenerItem.{meth}"
         res.instance(key, mod.loc(fn), unregister=len(un), register=len(rg))
         if meth == "handle_dict_items":
-            # bulk part delegates, changed part handled here
-            pass
+            # bulk part delegates, changed part handled here.  The three
+            # parts of one event are independent (update() with old and new
+            # keys carries `changed` *and* `added`): the added/removed part
+            # is processed on every path, whatever `changed` holds
+            from ..cfg import enumerate_paths
+            from ..pycfg import build_cfg
+            g_ = build_cfg(repo.inlined(TL, "ListenerItem.handle_dict_items"),
+                           "handle_dict_items")
+            missing = None
+            npaths = 0
+            for path in enumerate_paths(g_, max_paths=5000):
+                if path and g_.nodes[path[-1][0]].id == g_.raise_exit.id:
+                    continue
+                npaths += 1
+                seen_parts = set()
+                for nid, lab in path:
+                    a_ = g_.nodes[nid].ast
+                    if a_ is None or g_.nodes[nid].kind == "cond":
+                        continue
+                    t_ = norm(a_) if not isinstance(a_, ast.For) \
+                        else norm(a_.iter)
+                    for part in ("removed", "added"):
+                        if f"{newp}.{part}" in t_:
+                            seen_parts.add(part)
+                if seen_parts != {"removed", "added"} and missing is None:
+                    missing = (sorted({"removed", "added"} - seen_parts),
+                               [lab for nid, lab in path if lab in ("T", "F")
+                                and g_.nodes[nid].kind == "cond"])
+            res.oblige(missing is None and npaths > 0,
+                       key + ":parts-independent", mod.loc(fn),
+                       f"a path of handle_dict_items never processes "
+                       f"`{newp}.{'/'.join(missing[0]) if missing else ''}`: "
+                       f"an event that carries changed *and* added/removed "
+                       f"entries (dict.update with old and new keys) leaves "
+                       f"the new values without listeners")
         else:
             res.oblige(bool(un) and bool(rg), key + ":both", mod.loc(fn),
                        f"{meth} must both unregister (old side) and register "
@@ -441,6 +474,34 @@ def remove_path(ctx, res):
     res.oblige(ok, "on_trait_change:remove-found", mod.loc(blk),
                "when the handler is found, removal must delete the wrapper "
                "from the table, call listener.unregister(self) and dispose()")
+    # the search examines every recorded wrapper: the loop is left early
+    # only from inside the match branch
+    loops = [l for l in ast.walk(body) if isinstance(l, ast.For)
+             and any(n is match_if[0] for n in ast.walk(l))] if match_if else []
+    if match_if and not loops:
+        raise AnalysisError("on_trait_change: search loop not found")
+    for lp in loops[-1:]:
+        def exits_outside(stmts, inside):
+            bad_ = []
+            for s_ in stmts:
+                if isinstance(s_, (ast.Break, ast.Return)) and not inside:
+                    bad_.append(s_)
+                elif isinstance(s_, ast.If):
+                    ins = inside or s_ is match_if[0]
+                    bad_ += exits_outside(s_.body, ins)
+                    bad_ += exits_outside(s_.orelse, inside)
+                elif isinstance(s_, (ast.For, ast.While)):
+                    continue
+                elif isinstance(s_, (ast.With, ast.Try)):
+                    bad_ += exits_outside(getattr(s_, "body", []), inside)
+            return bad_
+        early = exits_outside(lp.body, False)
+        res.oblige(not early, "on_trait_change:remove-search-complete",
+                   mod.loc(early[0]) if early else mod.loc(lp),
+                   "the loop that looks for the handler's wrapper is left "
+                   "outside the match branch: only the first wrapper recorded "
+                   "under the name is ever examined, so removing a handler "
+                   "that was not registered first does nothing")
     # the add branch registers and records
     add = ast.Module(blk.orelse, [])
     txt = [norm(s) for s in ast.walk(add) if isinstance(s, ast.Expr)]
@@ -456,3 +517,115 @@ def remove_path(ctx, res):
                "plain names must be forwarded to _on_trait_change(handler, "
                "name, remove, ...)")
     res.floor(1)
+
+
+# ---------------------------------------------------------------------------
+# C16.kind-dispatch-agrees: the legacy listener chooses between simple / list
+# / dict / set handling by looking the trait handler's default-value kind up
+# in `type_map`, at two sibling sites (registration of existing traits and
+# `_new_trait_added` for traits added later).  Both must look up the same
+# thing: an attribute that the keys of the table are values of.
+
+@rule("C16.kind-dispatch-agrees", ["C16"],
+      "every lookup in the legacy listener's kind table uses the handler's "
+      "`default_value_type` (the sibling sites agree and the key is the "
+      "attribute the table's DefaultValue keys are values of)")
+def kind_dispatch_agrees(ctx, res):
+    repo = get_pyrepo(ctx)
+    mod = repo.module(TL)
+    if "type_map" not in mod.assigns:
+        raise AnalysisError("traits_listener.type_map missing")
+    tm = mod.assigns["type_map"]
+    keys = [norm(k) for k in tm.keys] if isinstance(tm, ast.Dict) else []
+    if not keys or not all(k.startswith("DefaultValue.") for k in keys):
+        raise AnalysisError("type_map: keys are not DefaultValue members")
+    sites = [c for c in ast.walk(mod.tree) if isinstance(c, ast.Call)
+             and norm(c.func) in ("type_map.get", "type_map.__getitem__")
+             and c.args]
+    sites += [s.slice for s in ast.walk(mod.tree)
+              if isinstance(s, ast.Subscript) and norm(s.value) == "type_map"]
+    n = 0
+    for c in sites:
+        k = c.args[0] if isinstance(c, ast.Call) else c
+        n += 1
+        res.instance(f"type_map-lookup:{getattr(k, 'lineno', 0)}", mod.loc(k),
+                     lookup_key=norm(k))
+        res.oblige(isinstance(k, ast.Attribute)
+                   and k.attr == "default_value_type",
+                   f"type_map-lookup:{norm(k)}", mod.loc(k),
+                   f"the listener kind is looked up with `{norm(k)}`; the "
+                   f"table is keyed by DefaultValue kinds, i.e. by a "
+                   f"handler's `default_value_type` (the sibling site uses "
+                   f"it): any other attribute reads as None and a container "
+                   f"trait is hooked as a simple link - its items are never "
+                   f"reached")
+    res.floor(2)
+
+
+# ---------------------------------------------------------------------------
+# C16.maintenance-dispatch: besides the user's handler, every `_register_*`
+# installs the listener's own link-maintenance handlers (handle_simple /
+# handle_list / handle_dict / ..._items / handle_error), which move the next
+# listener from what left to what arrived.  They must run synchronously and
+# must see every change including (Uninitialized -> default): that is what
+# dispatch="extended" gives.  The user's dispatch ("same" filters the default
+# event, "ui" / "new" run later on another thread) is for the user's handler
+# only.  The sibling `_register_*` methods must agree on this.
+
+@rule("C16.maintenance-dispatch", ["C16"],
+      "every _register_* method installs the listener's own link-maintenance "
+      "handlers with dispatch='extended' (never the user's dispatch)")
+def maintenance_dispatch(ctx, res):
+    repo = get_pyrepo(ctx)
+    mod = repo.module(TL)
+    cls = repo.cls(TL, "ListenerItem")
+    # the maintenance handlers: own handle_* methods that move the next
+    # listener (they mention self.next), directly or through another one
+    maint = set()
+    for _ in range(3):
+        for m_, f_ in cls.methods.items():
+            if not m_.startswith("handle_") or f_ is None:
+                continue
+            t_ = ast.unparse(f_)
+            if "self.next" in t_ or any(f"self.{x}(" in t_ for x in maint):
+                maint.add(m_)
+    if len(maint) < 4:
+        raise AnalysisError(f"ListenerItem: maintenance handlers {maint}")
+    n = 0
+    done = set()
+    for meth, fn in sorted(cls.methods.items()):
+        if not meth.startswith("_register_") or fn is None or id(fn) in done:
+            continue
+        done.add(id(fn))
+        # locals that can hold a maintenance handler
+        own = set()
+        for a in ast.walk(fn):
+            if isinstance(a, ast.Assign) and isinstance(a.value, ast.Attribute) \
+                    and isinstance(a.value.value, ast.Name) \
+                    and a.value.value.id == "self" and a.value.attr in maint:
+                own |= {t.id for t in a.targets if isinstance(t, ast.Name)}
+        for c in ast.walk(fn):
+            if not (isinstance(c, ast.Call) and isinstance(c.func, ast.Attribute)
+                    and c.func.attr == "_on_trait_change" and c.args):
+                continue
+            h = c.args[0]
+            is_own = (isinstance(h, ast.Name) and h.id in own) or (
+                isinstance(h, ast.Attribute) and isinstance(h.value, ast.Name)
+                and h.value.id == "self" and h.attr in maint)
+            if not is_own:
+                continue
+            n += 1
+            d = next((k.value for k in c.keywords if k.arg == "dispatch"), None)
+            key = f"ListenerItem.{meth}:{norm(h)}"
+            res.instance(key, mod.loc(c))
+            res.oblige(isinstance(d, ast.Constant) and d.value == "extended",
+                       key + ":dispatch", mod.loc(c),
+                       f"{meth} installs the link-maintenance handler "
+                       f"`{norm(h)}` with dispatch="
+                       f"`{norm(d) if d is not None else 'default'}`"
+                       f": the maintenance then inherits the user's "
+                       f"dispatch - the (Uninitialized -> default) event is "
+                       f"filtered (deferred listeners never reach a default "
+                       f"value) and 'ui'/'new' run it on another thread; the "
+                       f"sibling _register_* methods use 'extended'")
+    res.floor(5)
